@@ -15,7 +15,34 @@
    failpoints for mkdir/stat/write, unrelated files and a read-only sentinel) and run through the binary built
    from the working tree.  Tree hashes before/after are judged by the exported expectation; "new" content is
    what an unfaulted run of the same configuration produces for that path.
-3. The hook trace of every run is validated by TLC against spec/PipelineTrace.tla (lib/pipetrace.py).
+3. The hook trace of every run is validated by TLC against spec/PipelineTrace.tla (lib/pipetrace.py) and the complete
+   event stream against the root spec/MockeryTrace.tla (lib/runtrace.py, with the files that changed on disk).
+
+COVERAGE TABLE (statement / quantifier dimension -> explored by -> still a single point or absent)
+  initial tree states      fs0 in {absent, previous generated content, user content, non-empty directory} per file, all 4^3
+                           (TLA+); existing content also reached THROUGH A SYMLINK, parent directory absent / present with
+                           neighbours (concretisation)          -> absent: read-only file / directory (the harness runs as
+                           root), dangling and directory symlinks, empty directory at the path, special files
+  force-file-write levels  81 assignments of {unset,T,F} to root/pkg/iface/entry, effective value by TLA+; independent per
+                           file (mixed values in one run); the mocks of one file agree      -> absent: mocks of one file
+                           that disagree (statement: they must agree), env / flag sources (C08's)
+  multi-file runs          3 files, one shared by two interfaces, one fed by two configs entries, the sharing mocks reach the
+                           path by DIFFERENT SPELLINGS; formatters differ per file incl. noop; all file orders (model), the
+                           order the runtime draws (replay)                                  -> absent: > 3 files with faults
+  single-stage failures    4 stages x 13 natural variants + mkdir (failpoint, path component is a FILE) / stat / write
+                           failpoints, any one file; ONE cause shared by 2 or 3 files x 12 variants (all replayed); a missing
+                           interface on top of a failing file                                -> absent: two independent
+                           faults, a partial write inside os.WriteFile, ENOSPC, http(s) templates
+  frame                    unrelated files, sources, unconfigured package, look-alike directory, read-only sentinel (+mode),
+                           neighbours in the output directory, go.mod / go.sum / go.work(.sum) incl. untidy-but-resolvable
+                           modules, run in the go command's default -mod          -> absent: anything outside the module
+                           root (HOME, TMPDIR, GOCACHE are not hashed), vendor/
+  old-or-new / complete    new = bytes a run producing ONLY that file writes (so nothing of another file can leak in); old
+                           generated content is longer than new (catches non-truncating writes)  -> absent: a real second
+                           run after the interface changed (history of length 2 is simulated by the "generated" state)
+  path forms               relative, absolute and in-package output directories, ./x/../x spellings   -> absent: spaces /
+                           unicode / very long names, several missing directory levels
+  exit status              zero iff nothing failed (contract), judged on every run; missing interface worlds
 """
 import json
 import os
